@@ -135,7 +135,7 @@ package exif2
 
 // C03 forward layout: the pending out-of-line tags are kept ordered by value offset, so that a forward-only reader meets
 // every value in the order in which the values lie in the block.
-//@ spec sortedTags(b) = forall k int :: 0 <= k && k+1 < int(b.len) ==> b.tag[k].ValueOffset <= b.tag[k+1].ValueOffset
+//@ spec sortedTags(b) = forall k int :: 0 <= k && k < int(b.len) - 1 ==> b.tag[k].ValueOffset <= b.tag[k+1].ValueOffset
 
 //@ func (*ifdReader).addTagBuffer
 //@   props C01 C02 C03
@@ -405,16 +405,18 @@ package exif2
 //@   ensures [C03] ir.customTagParser == nil && !((t.Ifd == ifds.IFD0 && t.ID == ifds.CameraSerialNumber) || (t.Ifd == ifds.ExifIFD && t.ID == exififd.BodySerialNumber)) ==> same(ir.Exif.CameraSerial, old(ir.Exif.CameraSerial))
 
 //@ func (*ifdReader).readNextIfdTag
-//@   props C01 C02 C06
+//@   props C01 C02 C06 C03
 //@   requires irOK(ir)
 //@   modifies ir.po, stream(ir.reader), ir.buffer.buf, ir.buffer.len, ir.buffer.tag
 //@   ensures [C06] anchor(ir) == old(anchor(ir))
 //@   ensures [C02] pos(ir.reader) >= old(pos(ir.reader))
 //@   ensures [C02] ir.buffer.len > old(ir.buffer.len) ==> pos(ir.reader) > old(pos(ir.reader))
 //@   ensures ir.buffer.len <= 84 && ir.buffer.len >= old(ir.buffer.len)
+//@   requires [C03] sortedTags(ir.buffer)
+//@   ensures [C03] sortedTags(ir.buffer)
 
 //@ func (*ifdReader).readIfdHeader
-//@   props C01 C02 C06
+//@   props C01 C02 C06 C03
 //@   requires irOK(ir) && ir.buffer.pos == 0
 //@   modifies ir.po, stream(ir.reader), ir.buffer.buf, ir.buffer.len, ir.buffer.tag, ir.Exif
 //@   ensures [C06] anchor(ir) == old(anchor(ir))
@@ -423,9 +425,12 @@ package exif2
 //@   ensures ir.buffer.len <= 84 && ir.buffer.len >= old(ir.buffer.len)
 //@   loop 0 invariant 0 <= i && ir.buffer.len <= 84 && ir.buffer.len >= old(ir.buffer.len) && pos(ir.reader) > old(pos(ir.reader))
 //@   loop 0 invariant anchor(ir) == old(anchor(ir))
+//@   requires [C03] sortedTags(ir.buffer)
+//@   ensures [C03] sortedTags(ir.buffer)
+//@   loop 0 invariant [C03] sortedTags(ir.buffer)
 
 //@ func (*ifdReader).readSubIfds
-//@   props C01 C02 C06
+//@   props C01 C02 C06 C03
 //@   requires tagPre(ir, t)
 //@   modifies ir.po, stream(ir.reader), ir.buffer.buf, ir.buffer.len, ir.buffer.tag
 //@   ensures [C06] anchor(ir) == old(anchor(ir))
@@ -435,18 +440,23 @@ package exif2
 //@   loop 0 invariant 0 <= i && ir.buffer.len <= 84 && ir.buffer.len >= old(ir.buffer.len) && pos(ir.reader) >= old(pos(ir.reader)) && (len(buf) > 0 ==> pos(ir.reader) > old(pos(ir.reader))) && (i > 0 ==> len(buf) >= 4) && (i == 0 ==> ir.buffer.len == old(ir.buffer.len))
 //@   loop 0 decreases int(t.UnitCount) - i
 //@   loop 0 invariant anchor(ir) == old(anchor(ir))
+//@   requires [C03] sortedTags(ir.buffer)
+//@   ensures [C03] sortedTags(ir.buffer)
+//@   loop 0 invariant [C03] sortedTags(ir.buffer)
 
 //@ func (*ifdReader).readMakerNotes
-//@   props C01 C02 C06
+//@   props C01 C02 C06 C03
 //@   requires irOK(ir) && ir.buffer.pos == 0
 //@   modifies ir.po, stream(ir.reader), ir.buffer.buf, ir.buffer.len, ir.buffer.tag, ir.Exif
 //@   ensures [C06] anchor(ir) == old(anchor(ir))
 //@   ensures [C02] pos(ir.reader) >= old(pos(ir.reader))
 //@   ensures [C02] ir.buffer.len > old(ir.buffer.len) ==> pos(ir.reader) > old(pos(ir.reader))
 //@   ensures ir.buffer.len <= 84 && ir.buffer.len >= old(ir.buffer.len)
+//@   requires [C03] sortedTags(ir.buffer)
+//@   ensures [C03] sortedTags(ir.buffer)
 
 //@ func (*ifdReader).readIfd
-//@   props C01 C02 C06
+//@   props C01 C02 C06 C03
 //@   requires irOK(ir) && ir.buffer.pos == 0
 //@   modifies ir.po, stream(ir.reader), ir.buffer.buf, ir.buffer.len, ir.buffer.pos, ir.buffer.tag, ir.Exif
 //@   ensures [C06] anchor(ir) == old(anchor(ir))
@@ -455,12 +465,16 @@ package exif2
 //@   loop 0 invariant irOK(ir) && (ir.buffer.pos < ir.buffer.len ==> t == ir.buffer.tag[ir.buffer.pos]) && pos(ir.reader) >= old(pos(ir.reader))
 //@   loop 0 decreases lim(ir.reader) - pos(ir.reader), ir.buffer.len - ir.buffer.pos
 //@   loop 0 invariant anchor(ir) == old(anchor(ir))
+//@   requires [C03] sortedTags(ir.buffer)
+//@   ensures [C03] sortedTags(ir.buffer)
+//@   loop 0 invariant [C03] sortedTags(ir.buffer)
 
 //@ func (*ifdReader).ResetReader
-//@   props C01 C04
+//@   props C01 C04 C03
 //@   requires ir.buffer != nil && r != nil
 //@   modifies ir.reader, ir.buffer.len, ir.buffer.pos, ir.po
 //@   ensures irOK(ir) && ir.buffer.pos == 0 && ir.buffer.len == 0 && ir.reader == r && ir.po == 0
+//@   ensures [C03] sortedTags(ir.buffer)
 
 //@ func NewIfdReader
 //@   props C01 C04 C06
@@ -541,3 +555,5 @@ package exif2
 //@   requires b.pos <= b.len && b.len <= 84
 //@   modifies b.tag, b.len, b.pos
 //@   ensures b.pos == 0 && b.len == old(b.len) - old(b.pos)
+//@   requires [C03] sortedTags(b)
+//@   ensures [C03] sortedTags(b)
